@@ -62,6 +62,11 @@ func Regist(s *Stream) {
 
 // Unregist 取消注册
 func Unregist(s *Stream) {
+	unregist(s, StreamClosed)
+}
+
+// unregist 取消注册（如果仍是该路径的当前流）并以指定状态关闭流
+func unregist(s *Stream, status int32) {
 	si, ok := streams.Load(s.path)
 	if ok {
 		s2 := si.(*Stream)
@@ -69,7 +74,7 @@ func Unregist(s *Stream) {
 			streams.Delete(s.path)
 		}
 	}
-	s.Close()
+	s.close(status)
 }
 
 // UnregistAll 取消全部注册的流
@@ -194,11 +199,11 @@ func (r *runZeroConsumersClose) Next(t time.Time) time.Time {
 }
 
 func (r *runZeroConsumersClose) run() {
-	if r.s.consumptions.Count() <= 0 {
+	if r.s.ConsumerCount() <= 0 {
 		hlsable := r.s.Hlsable()
 		if hlsable == nil || time.Now().Sub(hlsable.LastAccessTime()) >= r.d {
 			r.closed = true
-			r.s.close(r.closedStats)
+			unregist(r.s, r.closedStats)
 		}
 	}
 }
